@@ -647,12 +647,20 @@ def implicit_dims(view):
 
 
 def partially_named(view):
-    """some array declares names for some of its dimensions only (`Int32 a[x = 2][3]`): pydap's BaseType keeps the
-    names it saw (`dims = ('x',)`), which no longer says which axis they name; parsed as declared, but outside what
-    the print side of the property quantifies over ("with or without named dimensions"): printing is not judged"""
+    """some array declares names for some of its dimensions only (`Int32 a[x = 2][3]`, legal DAP2): a BaseType's `dims`
+    is a tuple of names that every consumer pairs with the extents one to one, so it cannot say which axes are named"""
     if view[0] == "b":
         return 0 < len(view[4]) < len(view[3])
     return any(partially_named(k) for k in view[2])
+
+
+def declared_structure(view):
+    """the structure a foreign text declares, as far as pydap's model can hold it: the spelled view, except that an
+    array naming only some of its dimensions keeps its SHAPE and has no dimension names (repair of round 7: the parser
+    used to keep the partial tuple of names, and dds() - zipping names with extents - then declared a shorter array)"""
+    if view[0] == "b":
+        return view[:4] + ((),) if partially_named(view) else view
+    return (view[0], view[1], [declared_structure(k) for k in view[2]])
 
 
 def reference_text(view, level=0):
@@ -678,6 +686,7 @@ def judge_foreign(P, text, view):
     declared — members and MAPS in declared order, names, types, extents, dimension names; (3) that reference text
     parses to the same structure and (4) is reproduced exactly when printed again."""
     bad = []
+    view = declared_structure(view)
     d, dump = impl_parse(P, text)
     if d is None:
         return [("foreign-style DDS does not parse", dump, repr(view))], None, dump
@@ -685,8 +694,6 @@ def judge_foreign(P, text, view):
     if got != norm_dt(view):
         bad.append(("foreign-style DDS parses to a different structure than it declares", repr(got),
                     repr(norm_dt(view))))
-    if partially_named(view):
-        return bad, d, dump
     exp = implicit_dims(view)
     ref = reference_text(exp)
     try:
@@ -842,7 +849,7 @@ def check_lean_foreign(ctx, P, rng, n, cases):
         cases.append(("dds-fdecl " + sx, dump, {"text": text}))
         cases.append(("dds-parse " + hexb(text.encode("latin-1")), dump, {"text": text}))
         ctx.count(("lean-foreign", text), True, tag="foreign:lean-printer", sample={"foreign(lean)": text[:200]})
-        for f in sorted(foreign_features(view) | ({"foreign-partially-named-dimensions(print not judged)"}
+        for f in sorted(foreign_features(view) | ({"foreign-partially-named-dimensions(shape kept, names dropped)"}
                                                   if partially_named(view) else set())):
             ctx.tags["feature:" + f] += 1
         for what, obs, exp in bad:
@@ -944,11 +951,10 @@ def check_foreign(ctx, P, rng, cases):
     case = {"kind": "foreign", "text": text, "declared": view}
     bad, d, dump = judge_foreign(P, text, view)
     cases.append(("dds-parse " + hexb(text.encode()), dump, {"text": text}))
-    if not partially_named(view):
-        ref = reference_text(implicit_dims(view))
-        cases.append(("dds-parse " + hexb(ref.encode()), impl_parse(P, ref)[1], {"text": ref}))
+    ref = reference_text(implicit_dims(declared_structure(view)))
+    cases.append(("dds-parse " + hexb(ref.encode()), impl_parse(P, ref)[1], {"text": ref}))
     ctx.count(("foreign", text), True, tag="foreign", sample={"foreign": text[:300]})
-    for f in sorted(foreign_features(view) | ({"foreign-partially-named-dimensions(print not judged)"}
+    for f in sorted(foreign_features(view) | ({"foreign-partially-named-dimensions(shape kept, names dropped)"}
                                               if partially_named(view) else set())):
         ctx.tags["feature:" + f] += 1
     for what, obs, exp in bad:
